@@ -29,7 +29,7 @@ HELPERS = [(0, 'bswap8', 0, 1, 8, 0), (1, 'bswap16', 0, 2, 16, 1), (2, 'bswap24'
 OPN = {'mul': 6, 'div': 7, 'mod': 8}
 
 
-def Q(name, harness, defs, unwind=12, timeout=300, desc='', bounds='', **kw):
+def Q(name, harness, defs, unwind=12, timeout=120, desc='', bounds='', **kw):
     d = dict(name=name, unit='enc', harness=harness, defs=defs, unwind=unwind, timeout=timeout, mem_gb=3, desc=desc, bounds=bounds, tv_runs=60)
     d.update(kw)
     return d
